@@ -340,6 +340,10 @@ def c08(res, rng, tier):
     # long random histories over the C07 lattice (floats included), Len after every op
     groups = numeric_lattice(rng.fork("lat"))
     keys = [t for k in sorted(groups) for t in groups[k]][:4000] + STRINGISH + OTHERS + SPECIAL_FLOATS[3:7]
+    # the ends of the float64 range and the integer / float crossovers are always in the pool
+    for z in (2**1023, -2**1023, 2**1023 + 2**971, 2**1024 - 2**971, 2**1024, 2**1022, 2**970, 2**64, 2**63, -2**63, 2**53, 2**53 + 1, 2**100):
+        keys += groups.get(Fraction(z), [])
+    extremes = [t for z in (2**1023, 2**1024 - 2**971, -2**1023, 2**64, 2**63, 2**53) for t in groups.get(Fraction(z), [])]
     keys += tuples_of(rng.fork("tup"), ALPHA10[:7] + ["N"], 200)
     r = rng.fork("hist")
     # the Dict model scans every entry with exact arithmetic (about 30 ms per operation at 300 entries):
@@ -381,6 +385,12 @@ def c08(res, rng, tier):
                         toks += ["G", k]
                     toks += ["G", qk]
                     lines.append("dict " + " ".join(toks))
+    # every representation of an extreme value against every other one: Set a, Set b, Len, Get a, Del b, Len
+    for z in (2**1023, 2**1024 - 2**971, -2**1023, 2**64, 2**63, 2**53, 2**1023 + 2**971):
+        toks_z = groups.get(Fraction(z), [])
+        for a in toks_z:
+            for b in toks_z:
+                lines.append("dict S %s i:1 S %s i:2 L G %s G %s D %s L I" % (a, b, a, b, b))
     known = [k for k in C.load_known_findings() if k.get("property") == "C08" and k.get("class") == KNOWN_C08]
     if known:
         lines.append("dict S s:61 i:1 S b:61 i:2 G z:61")       # the listed witness
@@ -594,8 +604,19 @@ def c17(res, rng, tier):
         if md != io:
             res.violation("correspondence: Dict model %s vs implementation %s" % (md.split(" | ")[-3:], ip[-3:]),
                           {"kind": "correspondence", "history": alines[i][:2000], "model": md[-300:], "impl": io[-300:]}, found_input=False)
+    # the zero-value Dict (a Dict field nobody initialised) is a Dict state too: Get / Del reject unhashable
+    # keys on it like on any other, and treat hashable keys as absent
+    zlines = ["dict Z G %s D %s L" % (u, u) for u in UNHASHABLE + wide] + ["dict Z G %s D %s L" % (k, k) for k in ALPHA10]
+    zimpl = C.implrun(zlines)
+    for zl, zo in zip(zlines, zimpl):
+        unh = zl.split()[3] not in ALPHA10 and not any(zl.split()[3:][:len(k.split())] == k.split() for k in ALPHA10)
+        want = "Z:ok | G:unhashable | D:unhashable | L:0" if unh else "Z:ok | G:none | D:ok | L:0"
+        if zo != want:
+            res.violation("zero-value Dict: %s, expected %s" % (zo[:160], want),
+                          {"kind": "impl", "history": zl[:1000], "observed": zo[:300], "cmd": "echo '%s' | harness/go/implrun" % zl[:400]})
     res.coverage.update({
-        "evaluations": len(lines) + len(alines), "distinct_nontrivial": len(progs) + len(tprogs) + len(alines),
+        "zero_value_dict_calls": len(zlines),
+        "evaluations": len(lines) + len(alines) + len(zlines), "distinct_nontrivial": len(progs) + len(tprogs) + len(alines),
         "rule": "dict-building programs with an unhashable object (list, dict, bytearray) at depth 0..3 inside Tuple / Call args / Ref id x {DICT, SETITEM, SETITEMS, second pair, nested} x 4 configs; tuple keys in map mode; the unhashable object at every position of Tuples / argument lists of 2..17 items; direct Get/Set/Del with 16 + 12 (wide tuples) unhashable keys on Dicts of 0,1,7,8,9,100 entries with contents compared before/after",
         "programs": len(lines) + len(alines), "disagreements_checked": len(lines) + len(alines)})
     res.samples = [{"program_hex": meta[i][1].hex(), "impl": impl[i][:100]} for i in (0, 5, 40)] + \
